@@ -207,7 +207,13 @@ def h_named_rejections(cls: int, which: int, ai: int, mi: int, fi: int,
             attrs['null'] = False       # stated explicitly
         muts = [AddField('M', 'zz', ft, **attrs)]
     else:
-        muts = [ChangeField('M', ['a', 'b'][which % 2], initial=None, null=False)]
+        # plain attribute change, and combined with a type change (same or different db type)
+        ft = hx.pick([None, None, models.TextField, models.BigIntegerField, models.CharField], which)
+        fname = hx.pick(['a', 'b', 'a', 'b', 'b'], which)
+        kw = {'null': False}
+        if which == 4:
+            kw['max_length'] = length
+        muts = [ChangeField('M', fname, field_type=ft, initial=None, **kw)]
     try:
         _sim(proj, app_label, muts)
     except SimulationFailure:
